@@ -50,6 +50,8 @@ QuickPick(b) == {b, [b EXCEPT !.scheme = "https"], [b EXCEPT !.host = <<"static"
                  [b EXCEPT !.host = <<"static", "ab.example.com">>, !.path = <<"static", "/b">>],
                  [b EXCEPT !.ips = <<<<"in", "10.0.0.0/8">>, <<"in", "10.1.0.0/16">>>>], [b EXCEPT !.ips = <<<<"not_in", "10.1.0.0/16">>>>],
                  [b EXCEPT !.methods = <<"GET", "POST">>, !.excl = TRUE], [b EXCEPT !.methods = <<"POST">>],
+                 \* an exclusion that a POST passes: next to the rule for POST, one request is answered by an explicit bucket AND an exclusion bucket
+                 [b EXCEPT !.methods = <<"GET">>, !.excl = TRUE],
                  [b EXCEPT !.hdrs = <<H("X-K", "is_not_equal_to", "v")>>], [b EXCEPT !.hdrs = <<H("X-K", "contains", "v"), H("X-J", "is_not_defined", "")>>],
                  [b EXCEPT !.hdrs = <<H("X-K", "match_regex", "k-@m")>>], [b EXCEPT !.hdrs = <<H("X-K", "match_regex", "K-@m")>>],
                  [b EXCEPT !.hdrs = <<H("X-J", "is_defined", ""), H("X-K", "is_defined", "")>>], [b EXCEPT !.hdrs = <<H("X-K", "is_defined", "")>>],
